@@ -881,6 +881,12 @@ pub fn record(args: &Args) {
             let mut inf = vec![0u8; len];
             inf[0] = 0xc0;
             out.emit(&enc_event(kind, &inf, &none, "inf"));
+            // one stray bit in every byte position
+            for j in 0..len {
+                let mut b = inf.clone();
+                b[j] ^= 0x80 >> r.random_range(0..8u32);
+                out.emit(&enc_event(kind, &b, &none, "inf"));
+            }
             for _ in 0..(nenc / 8).max(8) {
                 let mut b = inf.clone();
                 let bit = r.random_range(0..len * 8);
